@@ -4,6 +4,7 @@ import (
 	"fmt"
 	"go/token"
 	"go/types"
+	"morlockverif/checker/internal/core"
 
 	"golang.org/x/tools/go/ssa"
 
@@ -204,7 +205,7 @@ func runC09(c *Ctx) {
 		return
 	}
 	stt, ok := scoreN.Underlying().(*types.Struct)
-	if !ok || stt.NumFields() != 3 || stt.Field(0).Name() != "Type" || stt.Field(1).Name() != "Mate" || stt.Field(2).Name() != "Pawns" {
+	if !ok || stt.NumFields() != 3 || core.FieldName(stt.Field(0)) != "Type" || core.FieldName(stt.Field(1)) != "Mate" || core.FieldName(stt.Field(2)) != "Pawns" {
 		r.Undecided("R09-order", "eval.Score layout", "", "", "Score is expected to have fields Type, Mate, Pawns")
 		return
 	}
